@@ -425,6 +425,17 @@ def competing_buyers(s):
     bucket(s, "usr1", 6, [["uosmo", 7]])
     buy(s, "usr2", 5, 5)        # refused
     buy(s, "usr1", 5, 6)
+    # a reservation survives everything the owner does to a draft: new ask, top-ups by every path
+    listing(s, "usr0", 7, [["uatom", 5]], G(n=[["uosmo", 9]]), wl="usr1", finalize=False)
+    s.do(E("usr0", {"k": "change_ask", "id": 7, "ask": G(n=[["uosmo", 7]])}), "valid")
+    s.do(E("usr0", {"k": "add_to_listing", "id": 7}, [["uatom", 1]]), "valid")
+    cw20_send(s, "usr0", CW20A, 1, {"k": "add_to_listing_cw20", "id": 7})
+    nft_send(s, "usr0", COLL1, "1", {"k": "add_to_listing_cw721", "id": 7})
+    s.do(E("usr0", {"k": "finalize", "id": 7, "secs": 3600}), "valid")
+    bucket(s, "usr2", 7, [["uosmo", 7]])
+    bucket(s, "usr1", 8, [["uosmo", 7]])
+    buy(s, "usr2", 7, 7)        # refused: still reserved for usr1
+    buy(s, "usr1", 7, 8)
     # self purchase
     listing(s, "usr4", 4, [["ujunox", 1000]], G(n=[["ujunox", 1000]]), secs=600)
     bucket(s, "usr4", 4, [["ujunox", 1000]])
